@@ -41,6 +41,9 @@ CHECKS['C17'] = dict(text='Changelogs generated from an entry-list model (symbol
 CHECKS['C09'] = dict(text='Probe struct types covering every supported kind and tag combination are marshalled and unmarshalled symbolically through the real encode.go/decode.go (reflect modelled over the interpreter heap, struct tags taken from go/types): on every path the round trip must reproduce the value field by field, optional zero fields must be absent and required ones present, a document lacking a required field must be an error, unknown fields of an embedded Paragraph must pass through in order while known ones reflect the struct, and no path may end in a panic.',
              note='Trusted: go/ssa, interpreter, the reflect model (validated against the native build on the same calls), z3. Integers are symbolic in [-999,999] / [0,999] plus concrete 64-bit boundaries (decimal rendering of full 64-bit symbolic words does not finish).',
              ref='DESIGN.md 2/C09')
+CHECKS['C10'] = dict(text='For each typed document kind (.dsc, .changes, debian/control, Packages, Sources, best-checksum selector) documents are rendered by the driver in the real Debian layout from a model with symbolic leaves, and the real typed parsers (Unmarshal with reflect modelled over the interpreter heap, struct tags straight from go/types) are executed symbolically: z3 shows on every path that a canonical dump of every struct field and accessor equals the model.',
+             note='Trusted: go/ssa, interpreter, reflect model, z3; the canonical dump functions in the harness. The control file inside a .deb is covered under C14.',
+             ref='DESIGN.md 2/C10')
 NA = {}
 props = [json.loads(l) for l in open(os.path.join(V, 'properties.jsonl'))]
 checks = []
